@@ -4,7 +4,7 @@ package tmstate
 // signature is recorded in the action store before it is released to the mirror.
 // Oracles: chkC02Sign (recording signer: at most one Sign* per kind per round, over the
 // whole history including restarts) and chkC02Save (every released action was preceded
-// by its successful Save*Action, at most one release per kind per round).
+// by its successful Save*Action; all releases of one kind in a round carry one signature).
 
 import (
 	"github.com/gordian-engine/gordian/internal/verifrt"
